@@ -899,9 +899,15 @@ retry:
 // unregisters a connected player
 func (p *Proxy) unregisterConnection(player *connectedPlayer) (found bool) {
 	p.muP.Lock()
-	_, found = p.playerIDs[player.ID()]
-	delete(p.playerNames, strings.ToLower(player.Username()))
-	delete(p.playerIDs, player.ID())
+	// Only remove the entries that belong to this very connection: a rejected or
+	// replaced session must not unregister another player with the same name or id.
+	if p.playerIDs[player.ID()] == player {
+		found = true
+		delete(p.playerIDs, player.ID())
+	}
+	if lowerName := strings.ToLower(player.Username()); p.playerNames[lowerName] == player {
+		delete(p.playerNames, lowerName)
+	}
 	empty := len(p.playerIDs) == 0
 	p.muP.Unlock()
 	if empty {
